@@ -58,8 +58,8 @@ def proof_stage(prop, ev, tier="quick"):
                 problems.append("leanchecker rejected DimModel.Props.%s: %s" % (prop.id, (p.stdout + p.stderr)[-800:]))
         except subprocess.TimeoutExpired:
             ev["leanchecker"] = {"module": "DimModel.Props.%s" % prop.id, "exit": None, "tail": "timeout"}
-    ev["obligations"] = len(prop.theorems)
-    ev["discharged"] = len(prop.theorems) - len(missing) if not problems else 0
+    ev["obligations"] = len(res) if not missing else len(res) + len(missing)      # every theorem of Props/<ID>.lean
+    ev["discharged"] = len(res) if not problems else 0
     return problems, log, table_info
 
 
